@@ -60,7 +60,7 @@ VARIABLES
   task,     \* [Tasks -> record]        control state of every task
   nact,     \* handler activations created so far
   nx,       \* execute_handler tasks created so far (parallel buses)
-  xh,       \* temporary handlers registered by pending expect() calls, in registration order
+  xh,       \* handlers registered at run time, in registration order: expect() temporaries and late bus.on() registrations
   cur,      \* the task inside an atomic stretch, or NoTask
   o,        \* observable state (BubusProps)
   hlog,     \* history of emitted lines when KeepLog (never read by any action)
@@ -134,12 +134,16 @@ Evict(E, b, hb) ==
 \* ------------------------------------------------------------------------
 \* handler selection (A.2)
 \* ------------------------------------------------------------------------
-ExpHandlers(b, ty) ==   \* the temporary handlers of pending expect() calls on this bus for this type
-  LET xs == SelectSeq(xh, LAMBDA x : x.b = b /\ x.ty = ty /\ x.st # "gone") IN
-  [i \in 1..Len(xs) |-> [id |-> "x" \o ToString(xs[i].x), bus |-> b, pat |-> ty, kind |-> "exp", to |-> ""]]
-HandlersOf(b, ty) ==   \* typed handlers first (expect() appends to the type's list), then wildcards, each in registration order
-  SelectSeq(Cfg.handlers, LAMBDA h : h.bus = b /\ h.pat = ty /\ h.pat # "*") \o ExpHandlers(b, ty) \o SelectSeq(Cfg.handlers, LAMBDA h : h.bus = b /\ h.pat = "*")
 HRec(hid) == CHOOSE h \in Range(Cfg.handlers) : h.id = hid
+\* handlers registered at run time, in registration order (`xh`): the temporary handlers of pending expect() calls (st "wait"/"got") and
+\* the `late` handlers of the configuration once a driver has called bus.on() for them (st "on")
+RunTimeHandlers(b, pat) ==
+  LET xs == SelectSeq(xh, LAMBDA x : x.b = b /\ x.ty = pat /\ x.st # "gone") IN
+  [i \in 1..Len(xs) |-> IF xs[i].st = "on" THEN HRec(xs[i].inc)
+                         ELSE [id |-> "x" \o ToString(xs[i].x), bus |-> b, pat |-> pat, kind |-> "exp", to |-> ""]]
+Static(b, pat) == SelectSeq(Cfg.handlers, LAMBDA h : h.bus = b /\ h.pat = pat /\ ~IsLate(h))
+HandlersOf(b, ty) ==   \* the type's list first, then the wildcards' list, each in registration order
+  Static(b, ty) \o RunTimeHandlers(b, ty) \o Static(b, "*") \o RunTimeHandlers(b, "*")
 \* number of ancestors (found through the histories) that have a pending/started/completed result of this handler
 RECURSIVE AncDepth(_, _, _, _, _, _)
 AncDepth(E, H, e, h, b, seen) ==
@@ -164,7 +168,7 @@ AddPending(x, hs, b) == IF hs = <<>> THEN x
 \* ------------------------------------------------------------------------
 Line(a) == [a |-> a, t |-> 0, evs |-> <<>>, hist |-> <<>>, q |-> <<>>, reg |-> <<>>]
 \* fold line ln into o, given the model state after the step
-RegOf(X) == [b \in B |-> Cardinality({h \in Handlers(Cfg) : h.bus = b}) + Cardinality({k \in DOMAIN X : X[k].b = b /\ X[k].st # "gone"})]
+RegOf(X) == [b \in B |-> Cardinality({h \in Handlers(Cfg) : h.bus = b /\ ~IsLate(h)}) + Cardinality({k \in DOMAIN X : X[k].b = b /\ X[k].st # "gone"})]
 ObsX(ln, E, n, H, Q, X) ==
   LET o0 == [o EXCEPT !.snap = Snaps(E, n), !.ety = [e \in 1..n |-> E[e].ty], !.hist = H, !.q = Q, !.reg = RegOf(X)]
   IN StepCore(Cfg, o, o0, ln)
@@ -874,6 +878,18 @@ DExpectEnd(i, timeout) ==  \* the future was resolved, or the timeout expired fi
   /\ task' = [task EXCEPT ![DT(i)].pc = "run", ![DT(i)].b = "", ![DT(i)].tout = FALSE, ![DT(i)].h = "", ![DT(i)].out = "", ![DT(i)].fh = "", ![DT(i)].e = 0]
   /\ UNCHANGED <<nev, ev, q, unf, shut, hist, running, idle, semv, depth, lockq, nact, nx, cur>>
 
+\* bus.on(pattern, handler) at run time: the handler is appended to its pattern's list and is selected for every event whose
+\* processing on that bus begins afterwards
+LateUnregistered == {h \in Range(Cfg.handlers) : IsLate(h) /\ ~\E k \in DOMAIN xh : xh[k].st = "on" /\ xh[k].inc = h.id}
+DRegister(i, hid) ==
+  /\ DRun(i) /\ \E h \in LateUnregistered : h.id = hid
+  /\ LET h == HRec(hid)
+         X == Append(xh, [x |-> Len(xh) + 1, d |-> i, b |-> h.bus, ty |-> h.pat, inc |-> hid, exc |-> "", st |-> "on", e |-> 0]) IN
+     /\ xh' = X
+     /\ o' = ObsX(Line("Reg") @@ [d |-> i, x |-> Len(xh) + 1, b |-> h.bus, h |-> hid, pat |-> h.pat], ev, nev, hist, q, X)
+  /\ task' = [task EXCEPT ![DT(i)].bud = @ - 1]
+  /\ UNCHANGED <<nev, ev, q, unf, shut, hist, running, idle, semv, depth, lockq, nact, nx, cur>>
+
 \* stop(timeout = None / 0) (A.11) and cancellation of the bus's background task
 DStopBegin(i, b) ==
   /\ WithStop /\ DRun(i)
@@ -935,6 +951,7 @@ NextCore ==
         \/ DIdleTimeout(i) \/ DStopGo(i) \/ DStopWaitEnd(i) \/ DExpectGo(i) \/ DExpectEnd(i, TRUE) \/ DExpectEnd(i, FALSE)
         \/ \E b \in B : \E ty \in Range(Types) : \E f \in ExpFilters : DExpectBegin(i, b, ty, f, "none", FALSE) \/ \E n \in 0..2 : (WithExpect /\ DDispatchN(i, b, ty, n))
         \/ \E b \in B : DStopBegin(i, b) \/ DCancelRL(i, b)
+        \/ \E h \in Range(Cfg.handlers) : DRegister(i, h.id)
         \/ \E b \in B : DIdleBegin(i, b, FALSE) \/ \E ty \in Range(Types) : DDispatch(i, b, ty)
         \/ \E k \in 1..MaxEv : DAwaitBegin(i, k)
 
